@@ -3,13 +3,15 @@
 import json, sys
 pid = sys.argv[1]
 rnd = sys.argv[2] if len(sys.argv) > 2 else "1"
-round2 = rnd in ("2", "3")
+round2 = rnd in ("2", "3", "4")
 wd = pid + ("r" + rnd if round2 else "")
 extra3 = (" In THIS round go for the less obvious places: (1) a change OUTSIDE the files the property is anchored in (a helper, a utility, an option default, a caller or callee one or two levels away) whose effect surfaces in this property; "
           "(2) a change that manifests only for an unusual-but-legal ARGUMENT TYPE or LAYOUT (python lists or tuples instead of arrays, pandas Series, integer / float32 / boolean dtypes, read-only or non-contiguous arrays, numpy scalars "
           "instead of python numbers, numpy integer or float valued options, keyword vs positional passing) or only at a particular SIZE (very short signals, exactly one / two / three cycles, a length that is a multiple of something); "
           "(3) a change of the refactoring kind (vectorising a loop, replacing a pandas idiom by a numpy one or vice versa, caching, early return, merging two branches, hoisting something out of a loop) that is right in the common case and wrong in a corner. "
           "Try to make the three changes one of each kind.") if rnd == "3" else ""
+if rnd == "4":
+    extra3 = (" In THIS round assume the property is being checked by a strong harness: it feeds thousands of random and exhaustively enumerated small inputs (all signal families, ties, plateaus, integer and float32 dtypes, lists / Series / read-only / strided arrays, numpy-scalar options, short recordings), compares every result with an independent reference model, repeats calls with shared argument objects, refills buffers in place, routes calls through Bycycle objects with histories, and compares with calls made in pristine processes. Think about what such a harness would most likely STILL NOT exercise, and put your three changes there: for example a coincidence of VALUES that random data almost never produces (a feature exactly equal to a threshold after a particular arithmetic, two different cyclepoints at the same sample, a period of exactly one sample, an extremum at sample 0 or at the last sample, all cycles identical, NaN or inf samples where the library accepts them, a constant or all-zero recording, an empty table), a rarely used documented OPTION or combination of options (look through every keyword argument of every public function the property involves, including plotting and group options, and their interplay), an ENVIRONMENT-like condition the code branches on (number of jobs vs number of signals, progress option, warnings filters, an optional dependency being absent), the ORDER or NAMES of output columns / rows / list entries, the dtype or index of the OUTPUT, or the exception TYPE / the state left behind when an exception is raised half-way. Make the three changes of three different such kinds and say in meta.json which kind each is.")
 p = next(json.loads(l) for l in open('/verif/properties.jsonl') if json.loads(l)['id'] == pid)
 print(f"""You are helping to evaluate a verification effort by playing the adversary. You work ONLY inside the scratch git worktree /tmp/seed/{wd} (a checkout of the Python library `bycycle`, which segments neural time series into cycles, computes per-cycle features and detects oscillatory bursts). Do not read or write anything under /verif or /repo. There is no network. Python with all dependencies is /venv/bin/python; to make sure your worktree's code is what gets imported, always run things as `cd /tmp/seed/{wd} && PYTHONPATH=/tmp/seed/{wd} /venv/bin/python ...`.
 
